@@ -96,6 +96,7 @@ func (r *lrunner) runEnd(cs LCase) (out Outcome, problem string) {
 	if err != nil {
 		return out, "client.New: " + err.Error()
 	}
+	done0 := c.Done() // the application keeps this channel for the whole life of the client (Reset included)
 	r.f.setProbe(p)
 	r.f.stub.setEcho(echo)
 	if err := c.UseStub(spb.NewGRIBIClient(r.f.conn)); err != nil {
@@ -257,7 +258,7 @@ func (r *lrunner) runEnd(cs LCase) (out Outcome, problem string) {
 			note("HANG: Reset did not return (%s)\n%s", what, d)
 		}
 		if out.Closed {
-			out.Fresh = r.furtherExchange(c, cs, &problem)
+			out.Fresh = r.furtherExchange(c, done0, cs, &problem)
 		}
 	default:
 		if timed(shortWatchdog, func() { c.Close() }) {
